@@ -33,3 +33,4 @@ for src, out, err in res:
         table[key] = facts.decl_list(fd)
 json.dump(table, open(os.path.join(V, 'sa', 'names.json'), 'w'), indent=0, sort_keys=True)
 print('functions:', len(table))
+ctx.cleanup()
